@@ -44,25 +44,74 @@ def search(res, tier, seed, deep=False):
             elif len(subsets) > 40:
                 r.shuffle(subsets); subsets = subsets[:40]
             for F in subsets:
-                o2 = obs.copy()
+                # the non-finite data that makes the fit fail: one NaN or a whole NaN column, in any of the three series
+                how = r.choice(["obs-one", "obs-column", "cm_hist-one", "cm_future-column", "cm_future-one"])
+                o2, h2, f2 = obs.copy(), hist.copy(), fut.copy()
+                tgt = {"obs": o2, "cm_hist": h2, "cm_future": f2}[how.split("-")[0]]
                 for (i, j) in F:
-                    o2[5, i, j] = np.nan
-                inp = dict(debiaser=name, shape=[X, Y], failing=[list(c) for c in F], seed=seed)
+                    if how.endswith("one"): tgt[5, i, j] = np.nan
+                    else: tgt[:, i, j] = np.nan
+                # which of the marked cells really fail is decided by the per-location method itself
+                expect = {}
+                for (i, j) in cells:
+                    if (i, j) in F:
+                        try:
+                            with warnings.catch_warnings():
+                                warnings.simplefilter("ignore")
+                                expect[(i, j)] = d.apply_location(o2[:, i, j], h2[:, i, j], f2[:, i, j], **tk)
+                        except Exception:
+                            expect[(i, j)] = None
+                    else:
+                        expect[(i, j)] = clean[:, i, j] if clean is not None else None
+                Fa = [c for c in F if expect[c] is None]
+                res.count("marked-cells-that-really-fail", len(Fa)); res.count("marked-cells-that-do-not-fail", len(F) - len(Fa))
+                inp = dict(debiaser=name, shape=[X, Y], failing=[list(c) for c in Fa], marked=[list(c) for c in F], non_finite=how, seed=seed)
                 for parallel in ((False, True) if (tier != "quick" or F == subsets[0]) else (False,)):
-                    out, err = G.run_apply(d, o2, hist, fut, failsafe=True, parallel=parallel, nr_processes=2, **tk)
-                    res.case(("builtin", name, len(F) == X * Y, parallel))
+                    out, err = G.run_apply(d, o2, h2, f2, failsafe=True, parallel=parallel, nr_processes=2, **tk)
+                    res.case(("builtin", name, how, len(Fa) == X * Y, parallel))
                     if out is None:
                         report("failsafe-raised:" + name, inp, repr(err)[:200], "failsafe=True must not propagate a location failure"); continue
                     for (i, j) in cells:
-                        if (i, j) in F:
+                        if (i, j) in Fa:
                             if not np.all(np.isnan(out[:, i, j])):
                                 report("failing-cell-not-nan:" + name, dict(inp, cell=[i, j]), None, "a failing cell must be NaN for the whole cell")
-                        elif clean is not None and not np.array_equal(out[:, i, j], clean[:, i, j]):
-                            report("other-cell-changed:" + name, dict(inp, cell=[i, j]), float(np.nanmax(np.abs(out[:, i, j] - clean[:, i, j]))),
+                        elif expect[(i, j)] is not None and not np.array_equal(out[:, i, j], expect[(i, j)], equal_nan=True):
+                            report("other-cell-changed:" + name, dict(inp, cell=[i, j]), None,
                                    "a cell that did not fail differs from the run in which nothing failed")
-                    out2, err2 = G.run_apply(d, o2, hist, fut, failsafe=False, parallel=parallel, nr_processes=2, **tk)
-                    if out2 is not None:
+                    out2, err2 = G.run_apply(d, o2, h2, f2, failsafe=False, parallel=parallel, nr_processes=2, **tk)
+                    if Fa and out2 is not None:
                         report("nofailsafe-returned:" + name, inp, None, "failsafe=False must propagate the failure; an array was returned")
+                    if not Fa and out2 is None:
+                        report("nofailsafe-raised-without-failure:" + name, inp, repr(err2)[:200], "no location fails but apply raised")
+
+    # failures raised by a user-defined debiaser: whatever Exception class it raises is isolated
+    for marker, exc in sorted(G.EXC.items()):
+        for kind in (("ls", "dc") if tier != "quick" else (("ls",) if marker % 2 else ("dc",))):
+            X, Y = r.choice([(2, 2), (1, 3), (3, 1)])
+            cells = [(i, j) for i in range(X) for j in range(Y)]
+            F = [c for c in cells if r.random() < 0.4] or [cells[0]]
+            obs0 = G.rand_grid(r, 3, X, Y); hist, fut = G.rand_grid(r, 3, X, Y), G.rand_grid(r, 4, X, Y)
+            obs = obs0.copy()
+            for (i, j) in F: obs[0, i, j] = marker
+            inp = dict(debiaser="probe-" + kind, raises=exc.__name__, shape=[X, Y], failing=[list(c) for c in F], seed=seed)
+            for parallel in (False, True):
+                d = G.make_probe(kind)
+                clean, _ = G.run_apply(d, obs0, hist, fut, parallel=parallel, nr_processes=2)
+                out, err = G.run_apply(d, obs, hist, fut, failsafe=True, parallel=parallel, nr_processes=2)
+                res.case(("probe", kind, exc.__name__, parallel))
+                if out is None:
+                    report("failsafe-raised:probe:" + exc.__name__, dict(inp, parallel=parallel), repr(err)[:200], "failsafe=True must not propagate a location failure"); continue
+                for (i, j) in cells:
+                    if (i, j) in F:
+                        if not np.all(np.isnan(out[:, i, j])):
+                            report("failing-cell-not-nan:probe", dict(inp, cell=[i, j], parallel=parallel), None, "a failing cell must be NaN for the whole cell")
+                    elif kind == "ls" and clean is not None and not np.array_equal(out[:, i, j], clean[:, i, j]):
+                        report("other-cell-changed:probe", dict(inp, cell=[i, j], parallel=parallel), None, "a cell that did not fail differs from the run in which nothing failed")
+                out2, err2 = G.run_apply(d, obs, hist, fut, failsafe=False, parallel=parallel, nr_processes=2)
+                if out2 is not None:
+                    report("nofailsafe-returned:probe", dict(inp, parallel=parallel), None, "failsafe=False must propagate the failure; an array was returned")
+                elif type(err2) is not exc and not parallel:
+                    report("nofailsafe-wrong-exception:probe", dict(inp, parallel=parallel), repr(err2)[:200], "failsafe=False must propagate the failure that occurred")
 
 def replay(w):
     return True, "re-run ./check C13 (inputs are regenerated from the recorded seed)"
